@@ -42,7 +42,11 @@ M = Model()
 DEEP_KINDS = ('key', 'agg2', 'key', 'agg1-hidden', 'key', 'key-hidden')
 
 
-def engine(P, *, where=(False, None), group_indexes=None, having=None, having_cls=True, order_spec=None, distinct=False, limit=None):
+EXISTING = Sym('STORE_OF_THE_EXISTING_GROUP')
+
+
+def engine(P, *, where=(False, None), group_indexes=None, having=None, having_cls=True, order_spec=None, distinct=False, limit=None,
+           key_state='new'):
     present, wcls = where
 
     def model(ex):
@@ -93,13 +97,28 @@ def engine(P, *, where=(False, None), group_indexes=None, having=None, having_cl
             return ALLOC
         if last == 'defaultdict' and len(args) == 1:
             return T('new', ('defaultdict', args[0]))
+        if f in ('dict', 'collections.OrderedDict', 'OrderedDict') and not args and not kwargs:
+            return T('dict', ())
         if isinstance(recv, T) and (recv.op == 'dict' or (recv.op == 'new' and recv.args[0] == 'defaultdict')):
+            # the group container: what it answers depends on whether the key of this row was seen before (key_state)
             if last == 'items' and not args:
                 return GROUPS
             if last == 'setdefault' and len(args) == 2:
+                if key_state == 'existing':
+                    ex.events.append(('group-lookup', args[0], EXISTING))
+                    return EXISTING
                 ex.events.append(('group-store', args[0], args[1]))
+                ex.heap[T('item', (recv, args[0]))] = args[1]
                 return args[1]
-            if last in ('values', 'keys', 'get', 'pop'):
+            if last == 'get' and len(args) in (1, 2):
+                k = T('item', (recv, args[0]))
+                if k in ex.heap:
+                    return ex.heap[k]
+                if key_state == 'existing':
+                    ex.events.append(('group-lookup', args[0], EXISTING))
+                    return EXISTING
+                return args[1] if len(args) == 2 else None
+            if last in ('values', 'keys', 'pop', 'popitem', 'clear', 'update'):
                 raise AnalysisError(f'execute_select: use of the group container through .{last}() is not understood')
         if f == 'iter' and len(args) == 1:
             m = model(ex)
@@ -139,15 +158,29 @@ def engine(P, *, where=(False, None), group_indexes=None, having=None, having_cl
             fac = base.args[1]
             if not (isinstance(fac, T) and fac.op == 'func'):
                 raise AnalysisError('execute_select: the factory of the group container is not a local function')
+            if key_state == 'existing':
+                ex.events.append(('group-lookup', idx, EXISTING))
+                return EXISTING
             ex.events.append(('factory-begin',))
             store = ex.inline(fac.args[1], None, (), ())
             ex.events.append(('group-store', idx, store))
             return store
+        if isinstance(base, T) and base.op == 'dict' and not base.args:
+            # a plain dict used as the group container (stores into it are kept in the heap and found before this hook)
+            if key_state == 'existing':
+                ex.events.append(('group-lookup', idx, EXISTING))
+                return EXISTING
+            raise Raise('KeyError', (idx,))
         return NotImplemented
 
     def oracle(term, ex):
         if having is not None and isinstance(term, T) and term.op == 'call' and term.args[0] == show(M.E[having]):
             return having_cls is True
+        if isinstance(term, T) and term.op == 'cmp' and term.args[0] in ('in', 'not in') and isinstance(term.args[2], T) and \
+                (term.args[2].op == 'dict' or (term.args[2].op == 'new' and term.args[2].args[0] == 'defaultdict')):
+            if T('item', (term.args[2], term.args[1])) in ex.heap:
+                return term.args[0] == 'in'
+            return (key_state == 'existing') == (term.args[0] == 'in')
         return None
     return Engine(P, on_attr=on_attr, on_call=on_call, on_item=on_item, oracle=oracle, max_paths=512)
 
@@ -198,23 +231,28 @@ def _rule_aggproto(P, deep) -> RuleResult:
             for having, hcls, hdesc in ((None, None, 'absent'), (H, None, 'NULL'), (H, False, 'false'), (H, True, 'true')):
                 if (present or wcls) and having is not None and not (present and wcls is True):
                     continue        # HAVING cases only with a passing / absent WHERE
-                ncases += 1
-                paths = _paths(P, fi, where=(present, wcls), group_indexes=gi, having=having, having_cls=hcls)
-                for p in paths:
-                    if p.outcome != 'return':
-                        fail('raises', f'GROUP BY targets {gi}: the aggregate branch ends with {p.outcome} {show(p.value)[:60]}')
-                        continue
-                    _judge_agg(p, fi, gi, (present, wcls, wdesc), (having, hcls, hdesc), fail)
-                if len(res.findings) > n0:
-                    return res
-                res.ok({'group_by_targets': gi, 'where': wdesc, 'having': hdesc, 'paths': len(paths)})
+                for key_state in ('new', 'existing'):
+                    if key_state == 'existing' and (having is not None or not ((not present) or wcls is True)):
+                        continue       # the second row of a group matters only when the row is selected
+                    ncases += 1
+                    paths = _paths(P, fi, where=(present, wcls), group_indexes=gi, having=having, having_cls=hcls, key_state=key_state)
+                    for p in paths:
+                        if p.outcome != 'return':
+                            fail('raises', f'GROUP BY targets {gi}, {"first" if key_state == "new" else "a later"} row of a group: the '
+                                 f'aggregate branch ends with {p.outcome} {show(p.value)[:60]}')
+                            continue
+                        _judge_agg(p, fi, gi, (present, wcls, wdesc), (having, hcls, hdesc), fail, key_state)
+                    if len(res.findings) > n0:
+                        return res
+                    res.ok({'group_by_targets': gi, 'where': wdesc, 'having': hdesc, 'row': 'first of its group' if key_state == 'new' else
+                            'a later row of its group', 'paths': len(paths)})
     res.ok({'function': fi.fq, 'cases': ncases, 'clauses': ['allocate-before-scan', 'fresh-initialised-store-per-group', 'update-under-gate',
                                                            'groups-in-first-appearance-order', 'finalize-per-group-before-evaluation',
                                                            'key-layout', 'having', 'one-row-per-group']})
     return res
 
 
-def _judge_agg(p, fi, gi, where, having, fail):
+def _judge_agg(p, fi, gi, where, having, fail, key_state='new'):
     present, wcls, wdesc = where
     hidx, hcls, hdesc = having
     ev = p.events
@@ -237,35 +275,55 @@ def _judge_agg(p, fi, gi, where, having, fail):
         return
     updates = [e for e in sev if e[0] == 'call' and str(e[1]).endswith('.update')]
     stores = [e for e in sev if e[0] == 'group-store']
+    if not stores:
+        # a plain dict filled by an explicit store: container[key] = store
+        stores = [('group-store', e[1].args[1], e[2]) for e in sev if e[0] == 'store' and isinstance(e[1], T) and e[1].op == 'item'
+                  and isinstance(e[1].args[0], T) and e[1].args[0].op == 'dict']
+    lookups = [e for e in sev if e[0] == 'group-lookup']
     for e in sev:
         if e[0] == 'where' and not (len(e[1]) == 1 and e[1][0] == CTX):
             fail('where-arg', f'the WHERE condition is evaluated on `{", ".join(map(show, e[1]))}`, not on the current row')
             return
     if not gate_open:
-        if updates or stores:
+        if updates or stores or lookups:
             fail(f'gate:{wdesc}', f'with the WHERE condition {wdesc} the row still takes part in the aggregation '
                  f'({len(updates)} updates); NULL and false both exclude the row')
         return
-    if len(stores) != 1:
-        if not stores:
+    if key_state == 'existing':
+        # a later row of a group: the store of the group is found again and keeps what it accumulated
+        if not lookups:
             raise AnalysisError(f'{fi.fq}: per-group store lookup not found: shape not understood')
-        fail('store', f'the store of the group is looked up {len(stores)} times for one row')
-        return
-    key, store = stores[0][1], stores[0][2]
-    # (b) a fresh store from the allocator, initialised for every aggregate node
-    i_store = sev.index(stores[0])
-    fb = [i for i, e in enumerate(sev[:i_store]) if e[0] == 'factory-begin']
-    fac = sev[fb[-1]:i_store] if fb else sev[:i_store]
-    cs = _calls(fac, '.create_store')
-    if not cs or store != T('call', (cs[-1][1], cs[-1][2], cs[-1][3])):
-        fail('initialize', 'every group needs a fresh store from the allocator (allocator.create_store() per new group)')
-        return
-    for a in M.ALL_AGGS:
-        ini = [e for e in fac if e[0] == 'call' and e[1] == f'{a.name}.initialize']
-        if len(ini) != 1 or ini[0][2] != (store,):
-            fail('initialize', f'a new group store must initialise every aggregate node once with that store; {a.name}.initialize: '
-                 f'{[show(x) for e in ini for x in e[2]] or "not called"}')
+        key, store = lookups[0][1], EXISTING
+        if any(e[0] == 'call' and str(e[1]).endswith('.initialize') and EXISTING in e[2] for e in sev) or stores:
+            fail('initialize', 'a later row of a group re-initialises or replaces the store of the group: what the earlier rows '
+                 'accumulated is lost')
             return
+    else:
+        if len(stores) != 1:
+            if not stores:
+                raise AnalysisError(f'{fi.fq}: per-group store lookup not found: shape not understood')
+            fail('store', f'the store of the group is looked up {len(stores)} times for one row')
+            return
+        key, store = stores[0][1], stores[0][2]
+        # (b) a fresh store from the allocator, initialised for every aggregate node
+        before = [e for e in sev if e[0] != 'group-store']
+        fb = [i for i, e in enumerate(sev) if e[0] == 'factory-begin']
+        fac = sev[fb[-1]:] if fb else sev
+        cs = _calls(fac, '.create_store')
+        if not cs or store != T('call', (cs[-1][1], cs[-1][2], cs[-1][3])):
+            fail('initialize', 'every group needs a fresh store from the allocator (allocator.create_store() per new group)')
+            return
+        for a in M.ALL_AGGS:
+            ini = [e for e in fac if e[0] == 'call' and e[1] == f'{a.name}.initialize']
+            if len(ini) != 1 or ini[0][2] != (store,):
+                fail('initialize', f'a new group store must initialise every aggregate node once with that store; {a.name}.initialize: '
+                     f'{[show(x) for e in ini for x in e[2]] or "not called"}')
+                return
+            upd_i = [i for i, e in enumerate(sev) if e[0] == 'call' and e[1] == f'{a.name}.update']
+            ini_i = [i for i, e in enumerate(sev) if e[0] == 'call' and e[1] == f'{a.name}.initialize']
+            if upd_i and ini_i and upd_i[0] < ini_i[0]:
+                fail('initialize', f'{a.name} is updated before its slot in the new store is initialised')
+                return
     # (c) the key: one value per distinct grouped target, each the target's expression on the current row
     if not (isinstance(key, T) and key.op == 'tuple'):
         fail('key', f'the group key must be the tuple of the non-aggregate expressions evaluated on the current row; found `{show(key)}`')
